@@ -100,6 +100,17 @@ def gen_cases(rng, tier):
                 x, y = (a, ['n', n]) if form[1] == 'n' else (['n', n], a)
                 cases.append({'dm': rng.choice(W.MODES), 'pre': True, 'script': [], 'hist': [],
                               'q': {'k': 'op', 'o': [o, x, y]}})
+    # every kind of number divided by a quantity whose reciprocal type exists, with decimal
+    # and non-decimal stored amounts (float / (22/7 s) used to raise ValueError: finding F20)
+    inv = [u for u in syms if u not in siref.TEMPERATURE and defined(u, u, 'div')
+           and w0.cls_of_dims(RW.vpow(w0.unit_value(u)[1], -1)) is not None]
+    for n in NUMS:
+        if F(n[1] if n[0] != 'float' else 1) == 0:
+            continue
+        for amt in (['frac', '22/7'], ['dec', '5/2'], ['frac', '-1/3']):
+            u = rng.choice(inv)
+            cases.append({'dm': rng.choice(W.MODES), 'pre': True, 'script': [], 'hist': [],
+                          'q': {'k': 'op', 'o': ['div', ['n', n], ['q', amt, u]]}})
     for i in range(160 if tier == 'quick' else 2500):
         tag = ''.join(rng.choice('abcdefghk') for _ in range(3))
         script, w = RW.gen_world(rng, tag)
